@@ -1,7 +1,7 @@
 use crate::{
   native, native_with_error,
   support::{export_and_insert, load_class_from_module},
-  StdResult,
+  try_rooted, StdResult,
 };
 use laythe_core::{
   constants::INDEX_GET,
@@ -353,7 +353,7 @@ impl LyNative for TupleCollect {
 
     hooks.push_root(list);
 
-    while !is_falsey(iter.next(hooks)?) {
+    while !is_falsey(try_rooted!(hooks, 1, iter.next(hooks))) {
       let current = iter.current();
       list.push(current, &hooks.as_gc());
     }
